@@ -252,9 +252,16 @@ impl C06 {
         for k in 0..d {
             let mut s = GdsStruct::new(LEVEL_NAMES[k]);
             if k + 1 < d {
-                // own geometry of a non-leaf level: an asymmetric rectangle on its own layer/datatype
+                // own geometry of a non-leaf level: an asymmetric rectangle on its own layer/datatype - or (costed)
+                // none at all: a pure wrapper level holding nothing but its reference
                 let (x0, y0) = (3 + k as i32, 2);
-                s.elems.push(GdsBoundary { layer: 20 + k as i16, datatype: 1 + k as i16, xy: closed(&[(x0, y0), (x0 + 6, y0), (x0 + 6, y0 + 4 + 2 * k as i32), (x0, y0 + 4 + 2 * k as i32)], (0, 0)), ..Default::default() }.into());
+                let wrapper = c.cost(2, "level-without-own-shapes") == 1;
+                if wrapper {
+                    tags.push("hier:wrapper-level");
+                }
+                if !wrapper {
+                    s.elems.push(GdsBoundary { layer: 20 + k as i16, datatype: 1 + k as i16, xy: closed(&[(x0, y0), (x0 + 6, y0), (x0 + 6, y0 + 4 + 2 * k as i32), (x0, y0 + 4 + 2 * k as i32)], (0, 0)), ..Default::default() }.into());
+                }
                 let allow_big = d == 2;
                 s.elems.push(gen_ref(c, LEVEL_NAMES[k + 1], allow_big, &mut tags));
             }
@@ -761,7 +768,7 @@ impl CaseDriver for C06 {
     fn describe(&self, tier: Tier) -> Describe {
         let rule = match self.part {
             Part::Hier => format!(
-                "GDS libraries of 1..3 levels (chain top -> ... -> leaf, optionally the top also placing the leaf), structs listed in every order; each reference SREF or AREF x all 8 Manhattan orientations (free); leaf content = one of {KINDS:?} or all seven together (free); costed (deviation bound {}): STRANS spelling (absent / explicit Some(0.0) / present-but-default / the same rotation as a negative angle 90q-360 / beyond one turn 90q+360), offsets {LOCS:?}, array cols x rows in {{1,2,3}}^2, lattice (axis-parallel, rotated with the angle, negative pitch, skewed, columns along y), large arrays 181x181 / 200x200 / 1x32767 / 32767x1 (two-level libraries only), a label inside the leaf shape. Non-trivial = has at least one reference.",
+                "GDS libraries of 1..3 levels (chain top -> ... -> leaf, optionally the top also placing the leaf), structs listed in every order; each reference SREF or AREF x all 8 Manhattan orientations (free); leaf content = one of {KINDS:?} or all seven together (free); costed (deviation bound {}): STRANS spelling (absent / explicit Some(0.0) / present-but-default / the same rotation as a negative angle 90q-360 / beyond one turn 90q+360), offsets {LOCS:?}, array cols x rows in {{1,2,3}}^2, lattice (axis-parallel, rotated with the angle, negative pitch, skewed, columns along y), large arrays 181x181 / 200x200 / 1x32767 / 32767x1 (two-level libraries only), a label inside the leaf shape, a level holding nothing but its reference (no shapes of its own). Non-trivial = has at least one reference.",
                 self.bound(tier)
             ),
             Part::Deep => "4-level chains, structs in every one of the 24 listing orders, every reference SREF or AREF x 8 orientations (free), leaf content CW rectangle or L-polygon; the costed alphabet of [hier] with deviation bound 1.".into(),
@@ -958,7 +965,7 @@ impl CaseDriver for C06 {
                 require_tags(stats, &LATTICE_TAGS)?;
                 require_tags(stats, &BIG_TAGS)?;
                 require_tags(stats, &SPELL_TAGS)?;
-                require_tags(stats, &["levels:1", "levels:2", "levels:3", "hier:leaf-label", "hier:shared-leaf"])?;
+                require_tags(stats, &["levels:1", "levels:2", "levels:3", "hier:leaf-label", "hier:shared-leaf", "hier:wrapper-level"])?;
                 require_outcomes(stats, &["ok"])?;
                 let ok = stats.outcomes.get("ok").copied().unwrap_or(0);
                 let err = stats.outcomes.get("err-on-wellformed").copied().unwrap_or(0);
